@@ -118,3 +118,149 @@ pub fn run(ctx: &mut Ctx) {
         }
     }
 }
+
+// ---------------------------------------------------------------------------
+// ROS 2 analyses (scalar costs): walks incl. supply weakening
+
+use crate::drivers::ros2::call_ros2;
+
+fn ros_rbf(t: &Value) -> Value {
+    json!({"dm": {"k": "rbf", "a": t["a"], "c": {"k": "scalar", "c": t["C"]}}})
+}
+
+fn ros_agg(ts: &[Value]) -> Value {
+    let parts: Vec<Value> = ts.iter().map(|t| json!({"k": "rbf", "a": t["a"], "c": {"k": "scalar", "c": t["C"]}})).collect();
+    json!({"dm": {"k": "agg", "of": parts}})
+}
+
+fn ros_results(sys: &Value) -> Value {
+    let ts = sys["tasks"].as_array().unwrap();
+    let own = &ts[0];
+    let rest: Vec<Value> = ts[1..].to_vec();
+    let sup = &sys["supply"];
+    let lim = &sys["lim"];
+    let mut m = Map::new();
+    m.insert("es".into(), call_ros2(&json!({"op": "ros2_es", "supply": sup, "lim": lim, "own": ros_agg(ts)})));
+    m.insert("timer".into(), call_ros2(&json!({"op": "ros2_timer", "supply": sup, "lim": lim, "own": ros_rbf(own),
+                                                "hp": ros_agg(&rest), "B": sys["B"]})));
+    m.insert("pp".into(), call_ros2(&json!({"op": "ros2_pp", "supply": sup, "lim": lim, "own": ros_rbf(own), "others": ros_agg(&rest)})));
+    // chain: own = last callback, prefix with WCET P on the same source
+    let pfx = json!({"a": own["a"], "C": sys["P"]});
+    let full = json!({"a": own["a"], "C": u(&own["C"]) + u(&sys["P"])});
+    m.insert("chain".into(), call_ros2(&json!({"op": "ros2_chain", "supply": sup, "lim": lim, "last": ros_rbf(own),
+                                                "prefix": ros_rbf(&pfx), "full": ros_rbf(&full), "others": ros_agg(&rest)})));
+    // rr / bw: all callbacks with their kinds and assumed bounds; singleton subchain of the first one
+    let wl: Vec<Value> = ts
+        .iter()
+        .map(|t| json!({"t": t["t"], "p": t["p"], "R": t["Rhat"], "a": t["a"], "c": {"k": "scalar", "c": t["C"]}}))
+        .collect();
+    for op in ["ros2_rr", "ros2_bw"] {
+        m.insert(op[5..].to_string(), call_ros2(&json!({"op": op, "supply": sup, "lim": lim, "workload": wl, "sub": [1]})));
+        if ts.len() >= 2 {
+            m.insert(format!("{}_chain", &op[5..]),
+                     call_ros2(&json!({"op": op, "supply": sup, "lim": lim, "workload": wl, "sub": [2, 1]})));
+        }
+    }
+    Value::Object(m)
+}
+
+fn ros_results_call(inp: &Value) -> Value {
+    ros_results(&inp["sys"])
+}
+
+fn ros_task(rng: &mut rand::rngs::StdRng, o: &gen::Opts) -> Value {
+    let mut t = gen_task(rng, o, 3, true);
+    let c = u(&t["C"]);
+    let kd = ["timer", "unknown", "polled", "es"][rng.gen_range(0..4)];
+    t["t"] = json!(kd);
+    t["p"] = json!(rng.gen_range(0..4));
+    t["Rhat"] = json!(c + rng.gen_range(0..=8));
+    t
+}
+
+pub fn run_ros2(ctx: &mut Ctx) {
+    let walks = if ctx.thorough { 12000 } else { 1300 };
+    let (tmax, limmax) = if ctx.thorough { (20, 120) } else { (10, 50) };
+    for _w in 0..walks {
+        let mut o = gen::Opts::basic(tmax);
+        o.allow_never = false;
+        let n = ctx.rng.gen_range(1..=3);
+        let mut tasks: Vec<Value> = (0..n).map(|_| ros_task(&mut ctx.rng, &o)).collect();
+        let mut b = ctx.rng.gen_range(0..=2u64);
+        let mut pfx = ctx.rng.gen_range(1..=3u64);
+        let mut lim = ctx.rng.gen_range(4..=limmax);
+        let mut supply = crate::drivers::ros2::gen_supply(&mut ctx.rng, 6);
+        let mut first = true;
+        for _step in 0..7 {
+            let mut kind_s = "reset";
+            let mut op = "reset";
+            if !first {
+                op = "harden";
+                let i = ctx.rng.gen_range(0..tasks.len());
+                match ctx.rng.gen_range(0..8) {
+                    0 => {
+                        tasks[i]["C"] = json!(u(&tasks[i]["C"]) + 1);
+                        // the assumed bound of a callback is never below its WCET
+                        tasks[i]["Rhat"] = json!(u(&tasks[i]["Rhat"]) + 1);
+                        kind_s = "inc_wcet";
+                    }
+                    1 => {
+                        let (a2, k) = harder_arrival(&mut ctx.rng, &tasks[i]["a"]);
+                        tasks[i]["a"] = a2;
+                        kind_s = k;
+                    }
+                    2 => {
+                        b += 1;
+                        pfx += ctx.rng.gen_range(0..=1);
+                        kind_s = "inc_blocking";
+                    }
+                    3 => {
+                        if tasks.len() < 4 {
+                            let t = ros_task(&mut ctx.rng, &o);
+                            tasks.push(t);
+                        }
+                        kind_s = "add_callback";
+                    }
+                    4 | 5 => {
+                        // a supply that provides less service in every window
+                        kind_s = "weaken_supply";
+                        supply = match kind(&supply) {
+                            "dedicated" => {
+                                let k = ctx.rng.gen_range(1..=4u64);
+                                json!({"k": "constrained", "Q": k, "D": k, "P": k})
+                            }
+                            "periodic" => {
+                                let (q, p) = (u(&supply["Q"]), u(&supply["P"]));
+                                if q > 1 && ctx.rng.gen_bool(0.5) {
+                                    json!({"k": "periodic", "Q": q - 1, "P": p})
+                                } else {
+                                    json!({"k": "periodic", "Q": q, "P": p + 1})
+                                }
+                            }
+                            _ => {
+                                let (q, dl, p) = (u(&supply["Q"]), u(&supply["D"]), u(&supply["P"]));
+                                match ctx.rng.gen_range(0..3) {
+                                    0 if q > 1 => json!({"k": "constrained", "Q": q - 1, "D": dl, "P": p}),
+                                    1 if dl < p => json!({"k": "constrained", "Q": q, "D": dl + 1, "P": p}),
+                                    _ => json!({"k": "constrained", "Q": q, "D": dl, "P": p + 1}),
+                                }
+                            }
+                        };
+                    }
+                    _ => {
+                        lim += ctx.rng.gen_range(1..=20);
+                        op = "raise_limit";
+                        kind_s = "raise_limit";
+                    }
+                }
+            }
+            first = false;
+            let sys = json!({"tasks": tasks, "B": b, "P": pfx, "lim": lim, "supply": supply});
+            let res = guarded(&json!({"sys": sys}), ctx.watchdog_ms, ros_results_call);
+            if !res.is_object() || res.get("panic").is_some() || res.get("hang").is_some() {
+                break;
+            }
+            ctx.sink.raw(&json!({"op": op, "kind": kind_s, "sys": sys, "res": res}));
+        }
+    }
+}
